@@ -2567,8 +2567,8 @@ static Node *new_sub(Node *lhs, Node *rhs, Token *tok) {
   if (!lhs->ty->base)
     error_tok(tok, "invalid operands");
 
-  // VLA + num
-  if (lhs->ty->base->kind == TY_VLA) {
+  // VLA - num
+  if (lhs->ty->base->kind == TY_VLA && is_integer(rhs->ty)) {
     rhs = new_binary(ND_MUL, rhs, new_var_node(lhs->ty->base->vla_size, tok), tok);
     add_type(rhs);
     Node *node = new_binary(ND_SUB, lhs, rhs, tok);
@@ -2589,6 +2589,12 @@ static Node *new_sub(Node *lhs, Node *rhs, Token *tok) {
   if (lhs->ty->base && rhs->ty->base) {
     Node *node = new_binary(ND_SUB, lhs, rhs, tok);
     node->ty = ty_long;
+
+    // The size of a VLA element is known only at run time.
+    if (lhs->ty->base->kind == TY_VLA) {
+      Node *sz = new_cast(new_var_node(lhs->ty->base->vla_size, tok), ty_long);
+      return new_binary(ND_DIV, node, sz, tok);
+    }
     return new_binary(ND_DIV, node, new_num(lhs->ty->base->size, tok), tok);
   }
 
